@@ -173,6 +173,8 @@ def _as_ll(ex, st, args, n):
 
 def _havoc_unless(ex, st, keep, tag):
     """arbitrary Python code may run unless `keep`: raw memory and all field heaps become unknown"""
+    if ex.known(st, keep):
+        return                   # `keep` holds on every execution reaching this point: nothing is havocked
     newraw = ex.fresh('raw_after_' + tag, z3.ArraySort(B64, B8))
     st.raw = z3.If(keep, st.raw, newraw)
     for key in list(st.fh):
